@@ -527,6 +527,15 @@ func (e *Env) call(n *SNode) SV {
 		return svTerm(x.wrapBits(argT(0), 32, false))
 	case "wrap16u":
 		return svTerm(x.wrapBits(argT(0), 16, false))
+	case "bits32":
+		// bits32(x, shift, width): the bit field of the 32-bit two's-complement
+		// representation of x, encoded the way the executor encodes x & mask
+		sh, wd := argT(1), argT(2)
+		if !sh.IsLit() || !wd.IsLit() {
+			e.fail("bits32 needs literal shift and width")
+		}
+		ua := x.toUnsigned(argT(0), 32, true)
+		return svTerm(B.Mod(B.Div(ua, B.BigInt(pow2(uint(sh.Val.Int64())))), B.BigInt(pow2(uint(wd.Val.Int64())))))
 	case "wrap8u":
 		return svTerm(x.wrapBits(argT(0), 8, false))
 	case "wrap64s":
